@@ -1,5 +1,6 @@
 """C01: evaluation computes the stratified least model (interpreter, -j1) — bounded-exhaustive programs x
 all databases over a tiny domain against the naive reference evaluator."""
+import os
 from ..common import *
 from .. import gen, diff, families
 
@@ -10,15 +11,14 @@ def check(tier):
     rep = Report(PID, tier, "exploration")
     dl = Deadline(600 if tier == "quick" else 3300)
     cfg = [diff.Config("interp-j1", "interp", 1)]
-    fams = families.c01_slice(tier)
-    total = 0
+    only = os.environ.get("VERIF_FAMILIES")
+    fams = families.c01_slice(tier, only.split(",") if only else None)
     for name, cases, dbs in fams:
         if dl.expired():
             rep.capped("deadline before family " + name)
             continue
         diff.differential(rep, cases, dbs, cfg, name, deadline=dl)
-        rep.sample({"family": name, "cases": len(cases), "databases": len(dbs) if dbs else "per-case", "example": cases[len(cases) // 2].desc})
-        total += len(cases)
+        rep.sample({"family": name, "cases": len(cases), "databases": len(dbs) if dbs else "per-case", "example": cases[len(cases) // 2].desc}, cap=20)
     rep.set("rule", "every member of each family up to its size bound (see 'samples' for families) x every database of the family's "
             "database enumeration; a case is non-trivial when the reference model derives at least one output tuple on some database; "
             "cases are distinct by construction (canonical variable naming)")
